@@ -294,6 +294,16 @@ func c02Obstruct(p *prepared, f *c02Fault) (string, bool) {
 			return "", false
 		}
 		n := files[f.File%len(files)]
+		if f.Bit%2 == 0 {
+			// (an empty file is confirmed without a single data frame: the receiver's failure on
+			// it is all the sender ever hears about that file)
+			for _, e := range files {
+				if e.Size == 0 {
+					n = e
+					break
+				}
+			}
+		}
 		path := filepath.Join(pre, filepath.FromSlash(n.Rel))
 		return "dir at " + n.Rel, os.MkdirAll(path, 0755) == nil
 	case "obstruct-file-at-dir":
